@@ -70,8 +70,8 @@ def run(ctx, progs):
         ctx.check(r["ok"], rule, r["name"].split(":")[0] if rule == "WITNESS" else "auto_traits", "%s %s" % (r["kind"], r["name"]),
                   "%s:%s" % (r["file"].replace(witness.VERIF + "/", ""), r["line"]),
                   "witness `%s` (%s): %s" % (r["name"], r["kind"], r["detail"]), r["detail"], "default")
-    ctx.floor("WITNESS", "must-fail witnesses", nfail, 28, "default")
-    ctx.floor("AUTO", "auto-trait assertions", len([r for r in res if r["kind"] == "auto-trait"]), 32, "default")
+    ctx.floor("WITNESS", "must-fail witnesses", nfail, 28, "default", slack=0)
+    ctx.floor("AUTO", "auto-trait assertions", len([r for r in res if r["kind"] == "auto-trait"]), 32, "default", slack=0)
     ctx.notes["checker_cmd"] = cmd + " <witness>.rs   (one run per witness, plus one per compiling twin); type queries: mirdump driver under cargo +nightly check"
     ctx.notes["trusted_base"] = ["rustc 1.97.0-nightly type checker, borrow checker, variance inference and const evaluator",
                                  "the mirdump driver's serialisation of variances_of / fn_sig / is_const_fn / impl table",
